@@ -66,6 +66,7 @@ class Interp:
         self.other = mido.Parser() if target == 'parser' else ParserQueue()
         self.pos = 0
         self.got = []          # retrieved messages in order
+        self._ids, self._objs = set(), []
         self.fails = []
         self.cut_inside = False
         self.retrieval_between = False
@@ -121,6 +122,18 @@ class Interp:
             return
         if type(msg) is not mido.Message or not (msg == prod[r]):
             self._fail('fifo', f'{what} returned {msg!r}, expected {prod[r]!r}')
+        # what was retrieved belongs to the caller (round 13: one cached Message object per single-byte type, handed out
+        # by every parser): a fresh object with time 0 each time; the caller stamps it, later retrievals do not show that
+        if type(msg) is mido.Message:
+            if id(msg) in self._ids:
+                self._fail('shared-object', f'{what} returned an object that was handed out before: {msg!r}')
+            elif msg.time != 0:
+                self._fail('stale-time', f'{what} returned {msg!r}: time is not 0 (an earlier caller stamped 3.5)')
+            self._ids.add(id(msg))
+            self._objs.append(msg)
+            snap = msg.copy()
+            msg.time = 3.5
+            msg = snap
         self.got.append(msg)
 
     def step(self, op):
